@@ -547,6 +547,85 @@ static void byte_case(uint64_t idx, void *arg)
         if (pos == 2 && t->step == 0) mc_sample("byte exhaustive: storyline '%s' step %d (%s), byte %d x 256 values, rest of the storyline, fetch of every cached page", s->name, t->step, LT[s->step[t->step]].name, pos);
 }
 
+/* ---- TOP index: how many titles the Additional Information Tables carry ------ */
+
+/* seed C01 round 6 (the TOP index page 900 stopped counting its lines after the first title it skipped): every TOP storyline
+ * above has two titles per AIT page, so the title loop of the index never got past row 5 of the 17 rows it may fill.  How
+ * many titles there are is the broadcaster's choice: 46 per AIT page (packets 1..23 with two titles each), every AIT page
+ * the BTT links.  This phase transmits a complete TOP service - BTT page table, BTT packet 21 linking the AIT pages 17C and
+ * 16A, both AIT pages, a text page - for EVERY pair of title counts (n1, n2) in 0..46 x 0..46, three ways of giving the
+ * titles page numbers (17C first then 16A / interleaving / both tables list the same pages, which the index shows once), the
+ * tables before and after the BTT that classifies them (a table received first is stored with unknown function and
+ * converted when the index is built), titles of every shape (short, all 12 characters, blank, with control characters;
+ * group and normal pages by the BTT table).  Then the index is fetched with sub-page ANY, 0 .. 6 (18 titles per index
+ * sub-page: 92 titles end on sub-page 5) into a vbi_page which is a heap block of its own, exactly sized (ASan red zone
+ * right behind it; fetch_vt() checks the unused tail text[1025..1055] of the pre-filled page), followed by the probes. */
+#define TIX_MAX     46
+#define TIX_SCHEMES 3
+static void tix_ait_page(int hdr, int n, int first, int stride)
+{
+        do_letter(TTX(hdr));
+        for (int r = 1; 2 * (r - 1) < n; r++) {
+                uint8_t d[42]; pk_addr(d, 1, r);
+                for (int s = 0; s < 2; s++) {
+                        int t = 2 * (r - 1) + s; if (t >= n) break;
+                        int dec = first + t * stride;                           /* 100 .. 191 */
+                        int nib[8] = { dec / 100, (dec / 10) % 10, dec % 10, 3, 15, 7, 15, 0 };
+                        if (t % 5 == 4) { nib[3] = 0; nib[4] = 0; nib[5] = 0; nib[6] = 1 + t % 3; }     /* a title for one sub-page */
+                        pk_nib(d, 2 + 20 * s, nib, 8);
+                        char txt[16];
+                        switch (t % 4) {
+                        case 0: snprintf(txt, sizeof txt, "Title %-6d", dec); break;
+                        case 1: snprintf(txt, sizeof txt, "ABCDEFGHI%03d", dec); break;
+                        case 2: snprintf(txt, sizeof txt, "            "); break;
+                        default: snprintf(txt, sizeof txt, "\x01{|}~\x7F\x1B %03d ", dec); break;
+                        }
+                        pk_text(d, 10 + 20 * s, txt);
+                }
+                feed_ttx(d);
+        }
+}
+static int tix_rows(const vbi_page *pg)
+{
+        int n = 0;
+        for (int r = 0; r < 25; r++) { unsigned u = pg->text[r * 41 + 35].unicode; if (r != 1 && u > 0x20 && u < 0x7F) n++; }
+        return n;
+}
+static void tix_case(uint64_t idx, void *arg)
+{
+        int n1 = (int)(idx >> 1), btt_last = (int)(idx & 1);
+        static const int SUB[] = { VBI_ANY_SUBNO, 0, 1, 2, 3, 4, 5, 6 };
+        uint64_t n = 0; int full = 0, part = 0, later = 0;
+        for (int n2 = 0; n2 <= TIX_MAX; n2++) for (int scheme = 0; scheme < TIX_SCHEMES; scheme++) {
+                snprintf(cur_ctx, sizeof cur_ctx, "TOP service: AIT 17C with %d titles, AIT 16A with %d titles (%s), BTT %s the tables, page 100; fetch of the TOP index 900",
+                         n1, n2, scheme == 0 ? "pages 100.. in 17C, the following in 16A" : scheme == 1 ? "even pages in 17C, odd pages in 16A" : "both list pages 100..", btt_last ? "after" : "before");
+                ex_begin();
+                if (!btt_last) { do_letter(TTX(P_H1F0)); do_letter(TTX(P_BTT_R1)); do_letter(TTX(P_BTT_R21B)); }
+                tix_ait_page(P_H17C, n1, 100, scheme == 1 ? 2 : 1);
+                tix_ait_page(P_H16A, n2, scheme == 0 ? 100 + n1 : scheme == 1 ? 101 : 100, scheme == 1 ? 2 : 1);
+                if (btt_last) { do_letter(TTX(P_H1F0)); do_letter(TTX(P_BTT_R1)); do_letter(TTX(P_BTT_R21B)); }
+                do_letter(TTX(P_H100E)); do_letter(TTX(P_R1_TEXT)); do_letter(TTX(P_H1FF));
+                vbi_page *pg = __real_malloc(sizeof *pg);         /* an object of its own: ASan guards both ends */
+                for (unsigned k = 0; k < sizeof SUB / sizeof *SUB; k++)
+                        if (fetch_vt(pg, 0x900, SUB[k], 3, 25, 1)) {
+                                int rows = tix_rows(pg);
+                                if (k <= 1) { if (rows >= 17) full++; else part++; } else if (rows) later++;
+                                consume_page(pg, 0, 0); unref(pg);
+                        }
+                __real_free(pg);
+                probes(0);
+                audit();
+                ex_end();
+                n++;
+                { mc_hash h; mc_hash_init(&h); mc_hash_u64(&h, 0x71de); mc_hash_u64(&h, idx); mc_hash_u64(&h, n2); mc_hash_u64(&h, scheme); mc_distinct(h.a); }
+        }
+        mc_count("evaluations", n); mc_count("top_index_services", n);
+        if (full) { mc_outcome("TOP index sub-page 0 with all 17 title rows filled"); mc_count("top_index_full_pages", full); }
+        if (part) mc_outcome("TOP index sub-page 0 with fewer than 17 titles");
+        if (later) mc_outcome("TOP index sub-page 1..6 with titles");
+        if (idx == 2 * 12) mc_sample("TOP index: AIT 17C with %d titles x AIT 16A with 0..%d titles x %d numbering schemes, index fetched with sub-page ANY, 0..6", n1, TIX_MAX, TIX_SCHEMES);
+}
+
 /* ---- all caption byte pairs ------------------------------------------------ */
 
 #define CCS_MAX 12
@@ -962,8 +1041,8 @@ int main(int argc, char **argv)
         if (!mc_replaying) warm_up();
 
         mc_meta("level", "model_checking");
-        mc_meta("technique", "explicit-state BFS over event histories on the real vbi_decoder with canonical state hashing (10 layered alphabets, 4 of them read-side layers starting from populated decoders: Level 2.5, TOP, TOP without block page + hexadecimal page, caption), every order of the page transmissions of well formed storylines, plus byte-exhaustive single steps (every byte value at every position of every packet of these transmissions; all 65536 caption byte pairs on both fields from several caption states); oracles: AddressSanitizer, recoverable UBSan through __ubsan_on_report, assert, per case watchdog, allocator accounting at vbi_decoder_delete, LeakSanitizer backstop, linear growth under repetition");
-        mc_meta("rule", "a case is a history of letters (one letter = one vbi_decode() of one sliced line, one macro transmission, or one read-side call group) replayed on a fresh decoder and hashed canonically (raw pages, caption channels, XDS/ITV buffers, network, magazines, page statistics, cache contents in MRU order, held page); de-duplicated states are expanded with every letter of the layer. Storyline cases (fixed order, every order of the transmissions, one byte of one packet replaced by each value) run the rest of the storyline and the read-side probes - every cached page, decimal or hexadecimal number, fetched with 25 rows + navigation at Level 3.5/2.5, header-only, links, text, TOP index, titles; distinct = canonical final states reached (BFS states and byte variants) - a variant that decodes to the same state as another is not counted twice");
+        mc_meta("technique", "explicit-state BFS over event histories on the real vbi_decoder with canonical state hashing (10 layered alphabets, 4 of them read-side layers starting from populated decoders: Level 2.5, TOP, TOP without block page + hexadecimal page, caption), every order of the page transmissions of well formed storylines, TOP services with every number of AIT titles (TOP index page 900), plus byte-exhaustive single steps (every byte value at every position of every packet of these transmissions; all 65536 caption byte pairs on both fields from several caption states); oracles: AddressSanitizer, recoverable UBSan through __ubsan_on_report, assert, per case watchdog, allocator accounting at vbi_decoder_delete, LeakSanitizer backstop, linear growth under repetition");
+        mc_meta("rule", "a case is a history of letters (one letter = one vbi_decode() of one sliced line, one macro transmission, or one read-side call group) replayed on a fresh decoder and hashed canonically (raw pages, caption channels, XDS/ITV buffers, network, magazines, page statistics, cache contents in MRU order, held page); de-duplicated states are expanded with every letter of the layer. Storyline cases (fixed order, every order of the transmissions, one byte of one packet replaced by each value) run the rest of the storyline and the read-side probes - every cached page, decimal or hexadecimal number, fetched with 25 rows + navigation at Level 3.5/2.5, header-only, links, text, TOP index, titles; a TOP index case is one (titles in AIT 17C, titles in AIT 16A, numbering, BTT position) service followed by the fetches of page 900 and the probes; distinct = canonical final states reached (BFS states and byte variants) - a variant that decodes to the same state as another is not counted twice");
         mc_meta("assume", "forward/backward searches start at page 100 or at a cached page and are cut by the progress callback after 2*(cached pages)+2 visits (non-termination from a start above all cached pages is C17's finding)");
         mc_meta("assume", "vbi_decode() is never called from an event handler and all calls come from one thread (documented restrictions)");
         mc_meta("assume", "API arguments are within their documented domains where the library asserts them (vbi_resolve_link column/row inside the page, vbi_cache_hi_subno pgno 0x100..0x8FF)");
@@ -1039,9 +1118,9 @@ int main(int argc, char **argv)
         grow_len = thorough ? 3 : 2;
         build_targets(!thorough);
 
-        char bound[1500]; size_t o = 0;
-        for (int i = 0; i < NLY; i++) o += snprintf(bound + o, sizeof bound - o, "%slayer %s: %d letters, depth %d", i ? "; " : "", LY[i].name, LY[i].n, LY[i].depth[thorough]);
-        o += snprintf(bound + o, sizeof bound - o, "; storyline orders: every order of the page transmissions of each storyline (up to 7 transmissions, thorough 8: all permutations; more: all rotations and exchanges of two), incl. 3 TOP storylines with displayable hexadecimal pages (10A, 12F, 18A, 18B listed by MIP rows 9/11) x TOP tables (BTT packet 21 only / no block page / complete), every cached page fetched with 25 rows + navigation; byte exhaustive: %d (state,packet) targets of %d storylines x 42 positions x 256 values; caption: %d states x 2 fields x 65536 pairs; growth: %d storylines + all %d-letter sequences over %d letters, 9 repetitions (linear growth confirmed over 297 repetitions before it is reported); held page: 3 storylines x 2 levels x 10 disturbances x 2 uses; XDS: 96 (class,type) x 11 lengths x %d values x 2 patterns; ITV: 8 strings x every position x 96 characters; all 65536 WSS words, 256 CPR-1204 bytes, VPS 3 bases x 13 bytes x 256; aux IDL/PFC: 3 packets x 42 x 256",
+        char bound[2000]; size_t o = 0;
+        for (int i = 0; i < NLY; i++) o += snprintf(bound + o, sizeof bound - o, "%s%s: %d letters, depth %d", i ? "; " : "layers ", LY[i].name, LY[i].n, LY[i].depth[thorough]);
+        o += snprintf(bound + o, sizeof bound - o, "; storyline orders: every order of the page transmissions of each storyline (up to 7 transmissions, thorough 8: all permutations; more: all rotations and exchanges of two), incl. 3 TOP storylines with displayable hexadecimal pages (10A, 12F, 18A, 18B by MIP rows 9/11) x TOP tables (packet 21 only / no block page / complete), every cached page fetched with 25 rows + navigation; TOP index: TOP services with all title counts 0..46 x 0..46 of the 2 linked AIT pages x 3 title numberings x BTT before/after, page 900 sub-page ANY, 0..6 into an exact heap vbi_page; byte exhaustive: %d (state,packet) targets of %d storylines x 42 positions x 256 values; caption: %d states x 2 fields x 65536 pairs; growth: %d storylines + all %d-letter sequences over %d letters, 9 repetitions (linear growth confirmed over 297 repetitions before it is reported); held page: 3 storylines x 2 levels x 10 disturbances x 2 uses; XDS: 96 (class,type) x 11 lengths x %d values x 2 patterns; ITV: 8 strings x every position x 96 characters; all 65536 WSS words, 256 CPR-1204 bytes, VPS 3 bases x 13 bytes x 256; aux IDL/PFC: 3 packets x 42 x 256",
                       NTG, NST, n_cc_states, NST, grow_len, NGROW, thorough ? 96 : 9);
         mc_meta("bound", "%s", bound);
         mc_note("alphabet: %d letters (%d Teletext packets, %d caption/XDS/ITV, %d misc, %d read side)", NLT, NPKT, LT_CC1 - LT_CC0, LT_MISC1 - LT_MISC0, LT_READ1 - LT_READ0);
@@ -1054,6 +1133,7 @@ int main(int argc, char **argv)
         POOL("storylines-selfcheck", NST, story_selfcheck_case, NULL, 20);
         build_orders(thorough);
         POOL("storyline-orders", n_order_cases, order_case, NULL, 20);
+        POOL("top-index-titles", (uint64_t) 2 * (TIX_MAX + 1), tix_case, NULL, 20);
 
         POOL("byte-exhaustive", (uint64_t) NTG * 42, byte_case, NULL, 20);
         { static int use0 = 0, use1 = 1;
